@@ -142,3 +142,26 @@ PROPS.update({
         "invariants.",
         tags=["C18"]),
 })
+
+PROPS["C10"] = {
+    "theorems": ["Narwhal.Theorems.C10"],
+    "audit_files": ["Narwhal/Model/Reader.lean"],
+    "expect_theorems": ["Narwhal.Reader.frames_eq_spec", "Narwhal.Reader.C10_segmentation_independent",
+                        "Narwhal.Reader.C10_payload_lengths_accepted", "Narwhal.Reader.C10_documented_errors"],
+    "suites": {"reader": {"kind": "lines", "nvh_suite": "reader", "driver_suite": "reader", "op_prefixes": ["chunks"],
+                          "cases": {"quick": 150, "thorough": 3000}, "thorough_args": {"exhaustive": 1}, "oracle_tags": ["C10"]}},
+    "rule": "byte streams of 1-6 frames (PING / BROADCAST with payloads at 1, 255-257, limit, limit+1, binary incl. LF/NUL/header-like text, truncated, "
+            "bad terminator, over-long and exactly-full headers, partial header at EOF) x segmentations (whole, 1-byte, random cuts; thorough: every single "
+            "cut) x buffer sizes x payload limits (bucket and non-bucket sizes) x pool budgets; each run drives the real ConnManager::run_connection; "
+            "distinct = distinct observation strings",
+    "trusted_base": ["modelled, not verified: util/src/codec.rs StreamReader and the inbound half of common/src/conn.rs run_connection_loop",
+                     "the header interpretation is a parameter of the theorems; the suite uses a restricted header menu whose interpretation the driver re-implements"],
+    "level_text": "Proved in Lean for every buffer capacity, payload limit, header interpretation and reader state: the frames produced by the "
+                  "buffer-and-chunks model of StreamReader + connection loop equal a stream-level specification, hence are independent of segmentation; "
+                  "payload bytes are opaque; every announced length up to the limit is accepted; over-long headers, oversized payloads and missing terminators "
+                  "end in the documented close. Tied to the code by running the real connection loop under many segmentations (and an implementation-only "
+                  "oracle that two segmentations of one stream must be acted on identically).",
+    "level_note": "Theorems are about the Lean reader model; tie = differential runs of the real ConnManager::run_connection with a recording dispatcher. "
+                  "Pool geometry (a buffer exists for every legal length) is proved under C19 and exercised here with small budgets and non-bucket limits.",
+    "assumptions": ["transport reads return at least one byte unless EOF", "payload_read_timeout not reached (timeouts: C20)"],
+}
